@@ -1532,7 +1532,9 @@ def optimize_blockwise_fusion_array(expr):
                 seen_in_group.add(node._name)
 
                 group.append(node)
-                for dep_name in dependencies.get(node._name, set()):
+                # sorted: set iteration order depends on PYTHONHASHSEED, and the group
+                # order feeds the fused node's name (and so the graph's keys)
+                for dep_name in sorted(dependencies.get(node._name, set())):
                     dep = expr_mapping[dep_name]
 
                     stack_names = {s._name for s in stack}
